@@ -199,7 +199,9 @@ class C16(Prop):
         reps = 1 if tier == "quick" else 4
         for rep in range(reps):
             for s in FORMAT + DISCOVER:
-                for flag in ("alt", "default", "none"):
+                for flag in ("alt", "default", "none", "zero"):
+                    if flag == "zero" and s not in ("width", "files_max_size"):
+                        continue  # an explicit value that is falsy: -w 0, --files-max-size 0
                     for cfg in ("alt", "default", False):
                         for auto in (False, True):
                             i += 1
@@ -347,7 +349,7 @@ class C16(Prop):
             cli_vals = {}
             flags = []
             if case["flag"] != "none":
-                v = ALT2[s] if case["flag"] == "alt" else DEFAULTS[s]
+                v = ALT2[s] if case["flag"] == "alt" else (0 if case["flag"] == "zero" else DEFAULTS[s])
                 a = flag_argv(s, v)
                 if a is None:
                     col.count("flag_value_not_spellable_on_cli")
